@@ -15,8 +15,14 @@ def run_property(prop, tier, src, seed=0, write=True, quiet=False):
     mod = importlib.import_module('pv.rules.' + prop.lower())
     ctx = Ctx(prop, tier, src, seed)
     mod.run(ctx)
-    if tier == 'thorough' and hasattr(mod, 'run_thorough'):
-        mod.run_thorough(ctx)
+    if tier == 'thorough':
+        if hasattr(mod, 'run_thorough'):
+            mod.run_thorough(ctx)
+        from .thorough import bytecode_crosscheck
+        bytecode_crosscheck(ctx)
+        ctx.rule('%s.SELFTEST' % prop, 'checker self-test: every registered seeded violation of the current sources is reported by the named rule, every registered semantics-preserving rewrite stays silent')
+        from .selftest import run_selftest
+        run_selftest(ctx)
     code, ev, lines = finish(ctx, mod.EXPLANATION, write=write, quiet=quiet)
     return code, ctx, ev
 
